@@ -38,7 +38,13 @@ fn pick_cadence(rng: &mut Rng) -> Cadence {
         2 => Cadence::Fixed(16 * MS + 666_667),
         3 => Cadence::Fixed(30 * MS),
         4 => Cadence::Fixed(*rng.pick(&[50u64, 100, 200]) * MS),
-        5 => Cadence::Jitter(100_000, 3 * MS), // several steps within one millisecond
+        // several steps within one millisecond; an application that does not sleep between steps
+        // (busy loop: every step interval below one millisecond)
+        5 => match rng.below(3) {
+            0 => Cadence::Jitter(100_000, 3 * MS),
+            1 => Cadence::Fixed(250_000),
+            _ => Cadence::Jitter(20_000, 900_000),
+        },
         6 => Cadence::Jitter(5 * MS, 60 * MS),
         _ => Cadence::Jitter(MS, 150 * MS),
     }
@@ -228,6 +234,31 @@ pub fn gen_ideal(seed: u64, params: &Params) -> Scenario {
             t.burst = (1, *rng.pick(&[10u64, 100, 1000, 5000]));
             t.per_step_p = *rng.pick(&[0.05, 0.2, 1.0]);
             t.total = rng.range((sz.packets / 4).max(1) as u64, (sz.packets * 2) as u64) as usize;
+        }
+    }
+    if rng.chance(0.15) {
+        // an application that stops calling step() for seconds while multi-fragment packets are on
+        // their way to it, over a connection with a small frame window (so the sender is
+        // frame-window-limited in mid-packet and its sync timer runs): nothing of this is a fault of
+        // the network, and everything must still arrive
+        s.window = *rng.pick(&[4u32, 8, 16, 32, 64]);
+        let mut t_stop = 0u64;
+        for t in s.traffic.iter_mut() {
+            if t.total > 0 {
+                t.len_class = *rng.pick(&[LenClass::Boundary, LenClass::Large, LenClass::Mixed]);
+                t.max_len = *rng.pick(&[8000usize, 30_000, 100_000]);
+                t.amb_p = 0.0;
+                t_stop = t_stop.max(t.stop_ns);
+            }
+        }
+        for c in s.cfg.iter_mut() {
+            c.rx_alloc = c.rx_alloc.max(200_000);
+        }
+        for i in 0..2 {
+            for _ in 0..rng.range(1, 4) {
+                let from = rng.range(0, t_stop.max(2 * SEC));
+                s.pauses[i].push(Pause { from_ns: from, until_ns: from + rng.range(2100, 12_000) * MS });
+            }
         }
     }
     if params.flag("tiny_bursts") && rng.chance(0.6) {
